@@ -249,6 +249,16 @@ func (w *World) invokeSites(pred func(*types.Func) bool) []Site {
 					out = append(out, Site{fn, in})
 				}
 			}
+			// interface method values (x.M used as a func value): a bound-method closure
+			if mc, ok := in.(*ssa.MakeClosure); ok {
+				if f, ok := mc.Fn.(*ssa.Function); ok && f.Synthetic != "" && f.Object() != nil {
+					if m, ok := f.Object().(*types.Func); ok {
+						if sig, ok := m.Type().(*types.Signature); ok && sig.Recv() != nil && types.IsInterface(sig.Recv().Type()) && pred(m) {
+							out = append(out, Site{fn, in})
+						}
+					}
+				}
+			}
 		})
 	}
 	return out
@@ -335,7 +345,32 @@ func (w *World) fieldUses(f *types.Var) []FieldUse {
 		if refs == nil {
 			continue
 		}
+		// follow embedded sub-fields (padded atomics: m.f.Uint64.Add): uses of the embedded
+		// field's address count as uses of the outer field
+		type refOf struct {
+			in    ssa.Instruction
+			owner ssa.Value
+		}
+		var all []refOf
 		for _, r := range *refs {
+			all = append(all, refOf{r, v})
+		}
+		for i := 0; i < len(all); i++ {
+			if sub, ok := all[i].in.(*ssa.FieldAddr); ok {
+				if sf := fieldOf(sub); sf != nil && sf.Embedded() && sub.Referrers() != nil {
+					for _, r := range *sub.Referrers() {
+						all = append(all, refOf{r, sub})
+					}
+				}
+			}
+		}
+		for _, ro := range all {
+			r, v := ro.in, ro.owner
+			if sub, ok := r.(*ssa.FieldAddr); ok {
+				if sf := fieldOf(sub); sf != nil && sf.Embedded() {
+					continue
+				}
+			}
 			switch x := r.(type) {
 			case *ssa.UnOp:
 				if x.Op == token.MUL {
@@ -777,6 +812,10 @@ func (r *renderer) alloc(a *ssa.Alloc) string {
 		}
 		if p, ok := only.(*ssa.Parameter); ok && n == 1 {
 			return "$" + p.Name()
+		}
+		// a local initialised exactly once from a call result (x := f(); x[i]): render as the call
+		if c, ok := only.(*ssa.Call); ok && n == 1 && r.depth < 12 {
+			return r.r(c)
 		}
 	}
 	if a.Comment != "" {
